@@ -215,9 +215,9 @@ def run(prop, prop_file, mode, tier, seed):
     cbor = mode == "cbor"
     replay_fixed(res, prop, mode, drv)
     replay_known(res, prop, mode, drv)
-    n_schemas = (5000 if tier == "quick" else 40000) * (2 if not proved else 1)
+    n_schemas = (30000 if tier == "quick" else 150000) * (2 if not proved else 1)
     pairs, classes, stats = gen_pairs(rng, mode, n_schemas)
-    sp, n_ss, n_sd = small_scope(seed, 150 if tier == "quick" else None)
+    sp, n_ss, n_sd = small_scope(seed, 300 if tier == "quick" else None)
     if cbor:
         sp = [(S, v) for S, v in sp]
     n_gen = len(pairs)
